@@ -642,9 +642,14 @@ package gocql
 //@   loop 0: invariant !haskey(m, "COMPRESSION") && Name_calls == 1 && s.conn.compressor == old(s.conn.compressor) && s.conn.compressor != nil
 //@   loop 0: exit haskey(m, "COMPRESSION") ==> exists(k, 0 <= k && k < old(len(supported["COMPRESSION"])), old(supported["COMPRESSION"][k]) == Name_ret0)
 
+// no AUTH_RESPONSE is written without an authenticator, nor after the authenticator refused the server's class
 //@ func (s *startupCoordinator) authenticateHandshake
 //@   props C05 C20
+//@   count_calls write Challenge
 //@   requires s.conn != nil && ctx != nil && authFrame != nil
+//@   ensures[C20] old(s.conn.auth) == nil ==> result != nil && write_calls == 0 && Challenge_calls == 0
+//@   ensures[C20] write_calls > 0 ==> old(s.conn.auth) != nil && Challenge_calls > 0
+//@   loop 0: invariant Challenge_calls > 0 && old(s.conn.auth) != nil
 
 //@ func (c *Conn) heartBeat
 //@   props C05
@@ -694,6 +699,55 @@ package gocql
 //@   loop 0: step len(encoded) <= 65535 ==> be16(buf.buf, prev(len(buf.buf))) == uint16(len(encoded))
 //@   loop 0: step forall(k, 0 <= k && k < len(encoded), buf.buf[prev(len(buf.buf))+2+k] == encoded[k])
 //@   loop 0: step forall(k, 0 <= k && k < prev(len(buf.buf)), buf.buf[k] == prev(buf.buf[k]))
+
+// ---------------------------------------------------------------------------
+// connectionpool.go / dial.go / conn.go: TLS configuration and credentials (C20)
+// Documented table (SslOptions doc comment):
+//   Config nil:      verify iff EnableHostVerification
+//   Config non-nil:  verify unless Config.InsecureSkipVerify && !EnableHostVerification
+// "verify" means InsecureSkipVerify == false on the config the driver dials with.
+// ---------------------------------------------------------------------------
+
+//@ func setupTLSConfig
+//@   props C20
+//@   count_calls ReadFile AppendCertsFromPEM LoadX509KeyPair
+//@   requires sslOpts != nil
+//@   ensures result1 == nil ==> result0 != nil
+//@   ensures result1 == nil && old(sslOpts.Config) == nil ==> result0.InsecureSkipVerify == !sslOpts.EnableHostVerification
+//@   ensures result1 == nil && old(sslOpts.Config) != nil ==> result0.InsecureSkipVerify == (old(sslOpts.Config.InsecureSkipVerify) && !sslOpts.EnableHostVerification)
+// the caller's own tls.Config is left untouched (a clone is modified)
+//@   ensures sslOpts.Config == old(sslOpts.Config) && sslOpts.EnableHostVerification == old(sslOpts.EnableHostVerification)
+//@   ensures old(sslOpts.Config) != nil ==> sslOpts.Config.InsecureSkipVerify == old(sslOpts.Config.InsecureSkipVerify) && same(sslOpts.Config.ServerName, old(sslOpts.Config.ServerName)) && (result1 == nil ==> result0 != sslOpts.Config)
+// unreadable / unparsable CA or key pair files are errors, and given paths are actually used
+//@   ensures ReadFile_calls == 1 && ReadFile_ret1 != nil ==> result1 != nil
+//@   ensures AppendCertsFromPEM_calls == 1 && !AppendCertsFromPEM_ret0 ==> result1 != nil
+//@   ensures LoadX509KeyPair_calls == 1 && LoadX509KeyPair_ret1 != nil ==> result1 != nil
+//@   ensures result1 == nil && sslOpts.CaPath != "" ==> ReadFile_calls == 1 && AppendCertsFromPEM_calls == 1
+//@   ensures result1 == nil && (sslOpts.CertPath != "" || sslOpts.KeyPath != "") ==> LoadX509KeyPair_calls == 1
+
+//@ func tlsConfigForAddr
+//@   props C20
+//@   requires tlsConfig != nil
+//@   ensures old(tlsConfig.InsecureSkipVerify) || len(old(tlsConfig.ServerName)) != 0 ==> result == tlsConfig
+//@   ensures !old(tlsConfig.InsecureSkipVerify) && len(old(tlsConfig.ServerName)) == 0 ==> result != tlsConfig && fresh(result) && !result.InsecureSkipVerify
+//@   ensures !old(tlsConfig.InsecureSkipVerify) && len(old(tlsConfig.ServerName)) == 0 ==> len(result.ServerName) <= len(addr) && same(result.ServerName, addr[:len(result.ServerName)]) && (len(result.ServerName) == len(addr) || addr[len(result.ServerName)] == ':')
+// the shared config is never modified
+//@   ensures tlsConfig.InsecureSkipVerify == old(tlsConfig.InsecureSkipVerify) && same(tlsConfig.ServerName, old(tlsConfig.ServerName))
+
+// Credentials are produced only for an approved authenticator class (the caller's list, or the default list when empty).
+//@ func approve
+//@   props C20
+//@   assume len(defaultApprovedAuthenticators) > 0
+//@   ensures result ==> exists(k, 0 <= k && k < len(approvedAuthenticators), approvedAuthenticators[k] == authenticator) || (len(approvedAuthenticators) == 0 && exists(k, 0 <= k && k < len(defaultApprovedAuthenticators), defaultApprovedAuthenticators[k] == authenticator))
+
+// SASL PLAIN token: NUL user NUL password
+//@ func (p PasswordAuthenticator) Challenge
+//@   props C20
+//@   count_calls approve
+//@   ensures approve_calls == 1 && (result2 == nil) == approve_ret0
+//@   ensures result2 != nil ==> result0 == nil
+//@   ensures result2 == nil ==> len(result0) == 2 + len(p.Username) + len(p.Password) && result0[0] == 0 && result0[1+len(p.Username)] == 0
+//@   ensures result2 == nil ==> forall(k, 0 <= k && k < len(p.Username), result0[1+k] == p.Username[k]) && forall(k, 0 <= k && k < len(p.Password), result0[2+len(p.Username)+k] == p.Password[k])
 
 // ---------------------------------------------------------------------------
 // uuid.go (RFC 4122; oracle in /verif/spec/bv.smt2 blocks uuid, hex)
